@@ -201,6 +201,7 @@ def describe(tier):
     return {
         "alphabet": "source images written by the independent writers (cassette and disk) holding every subset of size <= 2 (" +
                     ("and every subset of size 3" if tier == "thorough" else "4 subsets of size 3") + ") of {} plus two reordered sets; target kind cas/dsk; "
+                    "disk sources on descending and track-17-crossing chains; cassette sources recorded with gaps (gap flag $FF); "
                     "--files = every non-empty subset of the names in upper/lower/mixed case, with an absent name, and only an absent name; chains "
                     "cas>dsk>cas and dsk>cas>dsk; --to_bin on 1- and 2-file sources".format([C.brief(f) for f in FILES]),
         "bound": "single conversions and chains of two",
